@@ -64,6 +64,8 @@ type world struct {
 	hhash   []chainhash.Hash // by hid
 	trueHdr []int            // by height, for the current chain
 
+	net     *neutrino.VerifCFNet
+	hard    map[uint32]*chainhash.Hash
 	onQuery func(req wire.Message, deliver func(addr string, resp wire.Message) bool)
 	onBatch func(reqs []*query.Request) chan error
 	gbFail  map[int]bool // heights at which GetBlock fails
@@ -124,6 +126,7 @@ func newWorld(t *tr.W, r *rand.Rand, cps map[uint32]*chainhash.Hash) *world {
 			return c
 		},
 	}
+	w.net = net
 	v, err := neutrino.NewVerifCF(dir, w.params, net)
 	if err != nil {
 		panic(err)
@@ -160,6 +163,7 @@ func (w *world) reset(cps map[uint32]*chainhash.Hash) {
 	}
 	w.v.Take()
 	epoch++
+	w.hard = nil
 	chainsync.VerifSetFilterHeaderCheckpoints(verifNet, cps)
 	w.blocks = map[chainhash.Hash]*blk{}
 	w.fidOf = map[chainhash.Hash]int{}
@@ -403,10 +407,14 @@ func (w *world) retruth() {
 }
 
 // prefill writes the true filter headers up to height n directly into the store.
-func (w *world) prefill(n int) {
+func (w *world) prefill(n int) { w.prefillHdrs(w.trueHdr[:n+1]) }
+
+// prefillHdrs writes the given filter headers (by height, entry 0 = genesis,
+// not rewritten) directly into the store.
+func (w *world) prefillHdrs(hdrs []int) {
 	var fs []headerfs.FilterHeader
-	for h := 1; h <= n; h++ {
-		fs = append(fs, headerfs.FilterHeader{FilterHash: w.hhash[w.trueHdr[h]], HeaderHash: w.chain[h].hash, Height: uint32(h)})
+	for h := 1; h < len(hdrs); h++ {
+		fs = append(fs, headerfs.FilterHeader{FilterHash: w.hhash[hdrs[h]], HeaderHash: w.chain[h].hash, Height: uint32(h)})
 	}
 	if len(fs) > 0 {
 		if err := w.v.Filt.WriteHeaders(fs...); err != nil {
